@@ -503,6 +503,18 @@ func checkProverReturns(p *core.Program, r *core.Report, ix *funcIndex, fn *ssa.
 			continue
 		}
 		nRet++
+		if e0, ok := ret.Results[0].(*ssa.Extract); ok {
+			if e1, ok := ret.Results[1].(*ssa.Extract); ok && e0.Tuple == e1.Tuple {
+				// return f(…): both results of one in-repo call handed on; f's own returns are examined through the origins
+				// of whatever finally produces the proof
+				if c, ok := e0.Tuple.(*ssa.Call); ok && c.Common().StaticCallee() != nil && core.InRepo(pkgPathOf(c.Common().StaticCallee())) {
+					if why := delegatedReturnsOK(c.Common().StaticCallee(), isProve, 0); why != "" {
+						bad = append(bad, "return at "+p.Pos(ret.Pos())+" hands on the results of "+c.Common().StaticCallee().Name()+": "+why)
+					}
+					continue
+				}
+			}
+		}
 		po := ssaOrigins(ret.Results[0], nil)
 		eo := ssaOrigins(ret.Results[1], nil)
 		_, pConst := ret.Results[0].(*ssa.Const)
@@ -587,4 +599,42 @@ func importVerdicts(p *core.Program, r *core.Report, rule, why string, ids ...st
 		}
 		r.Analysed = append(r.Analysed, sr.Analysed...)
 	}
+}
+
+// delegatedReturnsOK: every return of f is (nil, err), (&Proof{groth16.Prove's result}, nil), or again the pair of results
+// of one in-repo call.
+func delegatedReturnsOK(f *ssa.Function, isProve func(*ssa.Call) bool, depth int) string {
+	if depth > 4 || len(f.Blocks) == 0 {
+		return "cannot follow " + f.Name()
+	}
+	for _, b := range f.Blocks {
+		ret, ok := b.Instrs[len(b.Instrs)-1].(*ssa.Return)
+		if !ok || len(ret.Results) != 2 {
+			continue
+		}
+		if e0, ok := ret.Results[0].(*ssa.Extract); ok {
+			if e1, ok := ret.Results[1].(*ssa.Extract); ok && e0.Tuple == e1.Tuple {
+				if c, ok := e0.Tuple.(*ssa.Call); ok && c.Common().StaticCallee() != nil && core.InRepo(pkgPathOf(c.Common().StaticCallee())) {
+					if why := delegatedReturnsOK(c.Common().StaticCallee(), isProve, depth+1); why != "" {
+						return why
+					}
+					continue
+				}
+			}
+		}
+		po := ssaOrigins(ret.Results[0], nil)
+		eo := ssaOrigins(ret.Results[1], nil)
+		if len(eo) == 0 {
+			if len(po) == 0 {
+				return f.Name() + " can return neither an error nor a proof"
+			}
+			for _, o := range po {
+				c, isCall := o.V.(*ssa.Call)
+				if !isCall || !isProve(c) || o.Index > 0 {
+					return "the proof " + f.Name() + " returns is not built from groth16.Prove's result"
+				}
+			}
+		}
+	}
+	return ""
 }
